@@ -568,6 +568,133 @@ Section Blocks.
 End Blocks.
 
 (* ===================================================================== *)
+(* Part 4b: forks - the side-chain import path                            *)
+(*   core/blockchain.go insertSidechain / verifyAllSideChainBlocks, the    *)
+(*   re-import after it, and the ordinary import of a whole branch.        *)
+(* ===================================================================== *)
+
+(* What differs between the nodes that execute a block of a fork is not the
+   parent state (opened from the parent's roots) but the node's DATABASE:
+   staking/endblock.go processPendingTxs resolves the hashes kept in the staking
+   records through the canonical transaction lookup (rawdb.ReadTransaction) and
+   falls back to the transactions of the block being executed only.  The period
+   end hook therefore takes the node's lookup index as an argument. *)
+Section Forks.
+  Variable St tx lg : Type.
+  Variable exec : St -> N -> tx -> option (St * Z * bool * list lg).
+  Variable price : tx -> Z.
+  Variable resolve : evid -> option N.
+  Variable val_exists : St -> N -> bool.
+  Variable penalize : St -> N -> St * Z * lg.
+  Variable max_expired : N.
+  Variable view : St -> N -> reward_view.
+  Variable apply_rewards : St -> N -> rtp_out -> St * list lg.
+  Variable v5 : bool.
+  Variable threshold coeff : Z.
+  Variable ratios : per_role.
+  Variable freq : N.
+  Variable commit : St -> N.
+  Variable receipt_hash : list (receipt lg) -> N.
+  Variable bloom : list (receipt lg) -> N.
+  Variable tx_hash : tx -> N.
+  (* the transaction hashes recorded in the staking records of a state *)
+  Variable pending : St -> list N.
+  (* endStakingPeriod on a node whose transaction lookup is the given index *)
+  Definition index := N -> option tx.
+  Variable period_end_r : index -> St -> N -> list tx -> St * list lg.
+
+  (* WriteTxLookupEntries of a block written with state *)
+  Definition idx_add (ix : index) (txs : list tx) : index :=
+    fun h => match find (fun t => N.eqb (tx_hash t) h) txs with Some t => Some t | None => ix h end.
+
+  Definition build_on (ix : index) :=
+    build_block St tx lg exec price resolve val_exists penalize max_expired view apply_rewards
+                v5 threshold coeff ratios freq (period_end_r ix) commit receipt_hash bloom.
+  Definition process_on (ix : index) :=
+    process_block St tx lg exec price resolve val_exists penalize max_expired view apply_rewards
+                  v5 threshold coeff ratios freq (period_end_r ix) commit receipt_hash bloom.
+
+  (* the state handed to endStakingPeriod while header h is processed on st0
+     (after the transactions, the slash-data replay and rewardsToPool) *)
+  Definition period_input (sc : sched) (m : memo) (st0 : St) (h : header tx) : option St :=
+    match fold_left (process_step St tx lg exec price (h_coinbase h)) (h_txs h)
+                    (Some (mkTxacc St tx lg st0 0 0 [] [])) with
+    | None => None
+    | Some a =>
+      let ea := replay_slashing St lg resolve val_exists penalize m (h_number h) max_expired
+                                (t_st _ _ _ a) (h_slash h) in
+      let w := view (a_st _ _ ea) (h_coinbase h) in
+      match rewards_to_pool sc v5 threshold coeff ratios (w_counts w) (w_pool_balance w)
+                            (h_gas_rewards h) (w_residue w) (w_pools w) (w_proposer w) with
+      | Crash => None
+      | Done o => Some (fst (apply_rewards (a_st _ _ ea) (h_coinbase h) o))
+      end
+    end.
+
+  (* two lookup indexes cannot be told apart while h is processed on st0: h is
+     not a period end, or they resolve every pending hash alike *)
+  Definition index_agree (ix ix' : index) (sc : sched) (m : memo) (st0 : St) (h : header tx) : Prop :=
+    ((h_number h + 1) mod freq <> 0)%N \/
+    forall st1, period_input sc m st0 h = Some st1 -> forall x, In x (pending st1) -> ix x = ix' x.
+
+  (* one block of a branch as the builder sees it *)
+  Record fork_in := mkForkIn { fi_coinbase : N; fi_cands : list tx; fi_pool : list evid }.
+
+  (* the builder extends its own head: every block it writes is indexed *)
+  Fixpoint build_fork (ix : index) (sc : sched) (m : memo) (st : St) (number : N) (ins : list fork_in)
+    : outcome (list (built St tx lg)) :=
+    match ins with
+    | [] => Done []
+    | i :: r =>
+      match build_on ix sc m st number (fi_coinbase i) (fi_cands i) (fi_pool i) with
+      | Crash => Crash
+      | Done b =>
+        match build_fork (idx_add ix (h_txs (b_header _ _ _ b))) sc m (b_state _ _ _ b) (number + 1)%N r with
+        | Crash => Crash
+        | Done bs => Done (b :: bs)
+        end
+      end
+    end.
+
+  (* importing a branch block after block, each on the state its parent left.
+     grow = true : insertChain - every accepted block is written with state and
+                   indexed before the next one is executed (ordinary import, and
+                   the re-import that follows a successful side-chain
+                   verification when the fork is the longer chain);
+     grow = false: verifyAllSideChainBlocks - the blocks are stored without
+                   state, the lookup index stays the node's canonical one. *)
+  Fixpoint import_chain (grow : bool) (ix : index) (sc : sched) (m : memo) (st : St) (hs : list (header tx))
+    : option (list (St * list (receipt lg))) :=
+    match hs with
+    | [] => Some []
+    | h :: r =>
+      match process_on ix sc m st h with
+      | Accepted _ _ st' recs =>
+        match import_chain grow (if grow then idx_add ix (h_txs h) else ix) sc m st' r with
+        | Some l => Some ((st', recs) :: l)
+        | None => None
+        end
+      | _ => None
+      end
+    end.
+
+  Definition fork_headers (bs : list (built St tx lg)) : list (header tx) := map (fun b => b_header _ _ _ b) bs.
+  Definition fork_results (bs : list (built St tx lg)) : list (St * list (receipt lg)) :=
+    map (fun b => (b_state _ _ _ b, b_receipts _ _ _ b)) bs.
+
+  (* outside the open finding: at every block of the branch the importing node's
+     index (ixn) and the builder's (ix) resolve the pending hashes alike *)
+  Fixpoint fork_ok (grow : bool) (ixn ix : index) (sc : sched) (m : memo) (st : St) (bs : list (built St tx lg)) : Prop :=
+    match bs with
+    | [] => True
+    | b :: r =>
+      index_agree ixn ix sc m st (b_header _ _ _ b) /\
+      fork_ok grow (if grow then idx_add ixn (h_txs (b_header _ _ _ b)) else ixn)
+              (idx_add ix (h_txs (b_header _ _ _ b))) sc m (b_state _ _ _ b) r
+    end.
+End Forks.
+
+(* ===================================================================== *)
 (* Part 5: correspondence runner                                          *)
 (* ===================================================================== *)
 
